@@ -127,7 +127,8 @@ void h_parity_records(void)
 		}
 	}
 	/* the format is chosen by the writer (unit state.header.roundtrip): 2 only when no parity is split */
-	version = (IN.version2 && !any_split) ? 2 : 3;
+	VERIF_ASSUME((IN.version2 != 0) == (PR_V2 != 0)); /* concrete per unit, like the geometry */
+	version = (PR_V2 && !any_split) ? 2 : 3;
 	g_n = g_r = 0;
 	VERIF_ASSERT(region_par_write(&ST1, 0, version, (void *)1) == 0, "the parity writer completes");
 	for (rounds = 0; rounds < NLV; ++rounds)
